@@ -35,6 +35,7 @@ fn s(v: &Value, k: &str) -> String {
 pub struct NodeCtx {
     pub app: Arc<AppShareData>,
     pub apply: Addr<StateApplyManager>,
+    pub index: Addr<rnacos::raft::filestore::raftindex::RaftIndexManager>,
     pub t0: Instant,
 }
 
@@ -296,6 +297,18 @@ impl NodeCtx {
                 app.raft_store.replicate_to_state_machine(&pairs).await?;
                 json!({})
             }
+            "preamble" => {
+                // what every real member of a cluster has on disk before it ever receives entries: term/vote, membership, addresses
+                use rnacos::raft::filestore::raftindex::RaftIndexRequest;
+                let hs = async_raft_ext::storage::HardState { current_term: op["term"].as_u64().unwrap_or(1), voted_for: op["voted_for"].as_u64() };
+                app.raft_store.save_hard_state(&hs).await?;
+                let mut addrs = std::collections::HashMap::new();
+                for i in 1..=3u64 {
+                    addrs.insert(i, Arc::new(format!("127.0.0.1:{}", 1000 + i)));
+                }
+                self.index.send(RaftIndexRequest::SaveMember { member: vec![1, 2, 3], member_after_consensus: None, node_addr: Some(addrs) }).await??;
+                json!({})
+            }
             "actor_barrier" => {
                 // one query per component actor: mailbox order guarantees earlier fire-and-forget sends were processed
                 let _ = app.config_addr.send(ConfigCmd::GET(ConfigKey::new("-", "-", "-"))).await;
@@ -327,7 +340,8 @@ pub fn run(_args: &Args) -> anyhow::Result<()> {
             let factory_data = config_factory(sys_config.clone()).await?;
             let app = build_share_data(factory_data.clone())?;
             let apply: Addr<StateApplyManager> = factory_data.get_actor().ok_or_else(|| anyhow::anyhow!("no apply manager"))?;
-            Ok::<_, anyhow::Error>(NodeCtx { app, apply, t0 })
+            let index = factory_data.get_actor().ok_or_else(|| anyhow::anyhow!("no index manager"))?;
+            Ok::<_, anyhow::Error>(NodeCtx { app, apply, index, t0 })
         };
         let ctx = match boot.await {
             Ok(c) => c,
